@@ -174,6 +174,18 @@ def one_case(ctx, case):
             if relerr(v, base_v) > 1e-9:
                 ctx.violation("cost/measurement-order", "cost depends on the order of the measured species (%r vs %r)" % (base_v, v), dict(rep, theta=theta))
                 return
+            # the same re-ordering applied to an existing set-up through its setters (data already extracted once)
+            inf3 = build_inference(case)[1]
+            inf3.cost_function([theta])
+            inf3.set_measurements(list(meas2))
+            inf3.prepare_inference()
+            inf3.setup_cost_function()
+            v3 = float(inf3.cost_function([theta]))
+            ctx.evaluated()
+            if relerr(v3, base_v) > 1e-9:
+                ctx.violation("cost/measurement-order/setter", "after set_measurements(%s) on a set-up that had been used with %s the cost is %r, a fresh set-up gives %r"
+                              % (meas2, case["measurements"], v3, base_v), dict(rep, theta=theta))
+                return
         if N > 1:
             perm = list(reversed(range(N)))
             v = float(build_inference(case, frames=[case["frames"][i] for i in perm], ics=[case["ics"][i] for i in perm],
